@@ -390,6 +390,25 @@ class C07(PropBase):
                                     regs = "esp=%d,%s,eip=%d" % (esp, extra, ceip)
                                     addA(100, gcps, hasgc, regs, mb, img.hex(), [W("0", 100, 16, 8, sv, lo, "0", abp)])
                                     dist["fpo_cross"] = dist.get("fpo_cross", 0) + 1
+        # the leftover-return-address skip is exactly ONE word: runs of 2..4 consecutive words equal to the callee's own eip
+        # above the frame (the documented caller eip is then the callee's eip again), the run followed by other words or
+        # reaching the very end of the memory image (the documented result still exists: only one more word is read)
+        ce = 0x40001234
+        for sv, lo, gcps in itertools.product([0, 4, 8], [0, 4], [0, 4]):
+            fs = sv + lo + gcps
+            for run in (2, 3, 4):
+                for cut in (False, True):
+                    img = bytearray(words(ESP - 16, 24))
+                    start = 16 + fs
+                    for j in range(run):
+                        img[start + 4 * j:start + 4 * j + 4] = ce.to_bytes(4, "little")
+                    if cut:
+                        img = img[:start + 4 * run]
+                    for abp in ("0", "1"):
+                        for hasgc in (False, True):
+                            addA(100, gcps, hasgc, "esp=%d,ebp=55,ebx=9,eip=%d" % (ESP, ce), ESP - 16, bytes(img).hex(),
+                                 [W("0", 100, 16, 8, sv, lo, "0", abp)])
+                            dist["fpo_skip_runs"] = dist.get("fpo_skip_runs", 0) + 1
         # random longer programs
         stmts = ["$T0 $ebp =", "$eip $T0 4 + ^ =", "$ebp $T0 ^ =", "$esp $T0 8 + =", "$T0 .raSearchStart =", "$eip $T0 ^ =",
                  "$esp $T0 4 + =", "$ebx $T2 4 - ^ =", "$T2 $esp .cbSavedRegs + =", "$esi .undef =", "$edi 7 =", "$ebp .undef =",
@@ -453,6 +472,20 @@ class C07(PropBase):
                     cases.append("|".join(["B", ctxs[0], valid, str(ESP - 16), bytes(img).hex(), W("0", 100, 16, 8, sv, lo, "0", abp)]))
                     dist["by_kind"]["B"] += 1
                     dist["real_walker"] += 1
+        # runs of the callee's eip above the frame, through the real walker from a context frame (exactly one word is skipped)
+        for sv, lo in itertools.product([0, 4, 8], [0, 4]):
+            for run in (2, 3):
+                for cut in (False, True):
+                    img = bytearray(words(ESP - 16, 24))
+                    start = 16 + sv + lo
+                    for j in range(run):
+                        img[start + 4 * j:start + 4 * j + 4] = (MODBASE + 100).to_bytes(4, "little")
+                    if cut:
+                        img = img[:start + 4 * run]
+                    for abp in ("0", "1"):
+                        cases.append("|".join(["B", ctxs[0], valids[0], str(ESP - 16), bytes(img).hex(), W("0", 100, 16, 8, sv, lo, "0", abp)]))
+                        dist["by_kind"]["B"] += 1
+                        dist["real_walker"] += 1
         # front-end (f): the same step resumed from a frame LIST, so that has_grand_callee / grand_callee_parameter_size
         # are derived by the real walk_stack + CfiStackWalker::from_ctx_and_args.  `below` = parameter sizes of the frames
         # under the callee ("-" = the frame's code has no FUNC/PUBLIC record), "." = the callee is the context frame.
@@ -490,6 +523,16 @@ class C07(PropBase):
                             cases.append("|".join(["F", below, ctxF, valids[0], str(ESP - 16), bytes(img).hex(),
                                                    W("4", 100, 16, 8, sv, lo, "1", pr)]))
                             nF += 1
+            if below in (".", "-", "4", "-,-"):
+                for sv, run, cut in itertools.product([0, 4], [2, 3], [False, True]):
+                    img = bytearray(words(ESP - 16, 32))
+                    start = 16 + sv + gcps
+                    for j in range(run):
+                        img[start + 4 * j:start + 4 * j + 4] = ceip.to_bytes(4, "little")
+                    if cut:
+                        img = img[:start + 4 * run]
+                    cases.append("|".join(["F", below, ctxF, valids[0], str(ESP - 16), bytes(img).hex(), W("0", 100, 16, 8, sv, 0, "0", "0")]))
+                    nF += 1
             # stack pointer of the callee outside the stack memory: only the context frame may still be unwound
             img = words(ESP + 64, 16)
             cases.append("|".join(["F", below, ctxF, valids[0], str(ESP + 64), img.hex(), W("0", 100, 16, 8, 0, 0, "0", "0")]))
